@@ -616,21 +616,57 @@ func Hash(s string) uint64 {
 // Call runs f in a goroutine and waits up to d for it to return. It reports
 // whether f returned; a panic in f is re-raised in the caller.
 func Call(d time.Duration, f func()) (returned bool) {
-	done := make(chan any, 1)
+	done := make(chan struct{})
+	var pv any
 	go func() {
-		defer func() { done <- recover() }()
+		defer close(done)
+		defer func() { pv = recover() }()
 		f()
 	}()
+	if !Await(done, d, "github.com/biogo/hts") {
+		return false
+	}
+	if pv != nil {
+		panic(pv)
+	}
+	return true
+}
+
+// Await waits for done. A time budget that runs out is not by itself a
+// verdict: after d without completion the goroutine dump decides. If the
+// library is stuck (Deadlocked) Await returns false at once. If library
+// goroutines are still doing something (a slow, busy machine) it keeps
+// waiting, re-examining every two seconds, and gives up only after ten times
+// d (a loop that never ends).
+func Await(done <-chan struct{}, d time.Duration, pkgFrag string) bool {
 	tm := time.NewTimer(d)
 	defer tm.Stop()
 	select {
-	case e := <-done:
-		if e != nil {
-			panic(e)
-		}
+	case <-done:
 		return true
 	case <-tm.C:
-		return false
+	}
+	deadline := time.Now().Add(9 * d)
+	for {
+		if dl, _ := Deadlocked(pkgFrag); dl {
+			// look once more: a goroutine scheduled late may still move
+			select {
+			case <-done:
+				return true
+			case <-time.After(time.Second):
+			}
+			if dl2, _ := Deadlocked(pkgFrag); dl2 {
+				return false
+			}
+		}
+		if time.Now().After(deadline) {
+			return false
+		}
+		select {
+		case <-done:
+			return true
+		case <-time.After(2 * time.Second):
+		}
 	}
 }
 
